@@ -13,6 +13,8 @@ import time as _time
 REAL_TIME_NS = _time.time_ns
 REAL_TIME = _time.time
 REAL_MONOTONIC = _time.monotonic
+REAL_MONOTONIC_NS = _time.monotonic_ns
+REAL_SLEEP = _time.sleep
 REAL_PERF = _time.perf_counter
 
 
@@ -79,11 +81,46 @@ def _sim_time():
     return c.time()
 
 
+def _sim_monotonic():
+    c = _current_clock
+    if c is None:
+        return REAL_MONOTONIC()
+    return c.time()
+
+
+def _sim_monotonic_ns():
+    c = _current_clock
+    if c is None:
+        return REAL_MONOTONIC_NS()
+    return c.time_ns()
+
+
+_current_sched = None  # the scheduler of the run in progress (set by Sched.run / run_inline)
+
+
+def _sim_sleep(seconds):
+    """time.sleep of the code under test (retry / polling loops): simulated time passes, other actors run meanwhile,
+    and a kill can land here.  Threads the simulator does not own (and the harness itself) really sleep."""
+    c = _current_clock
+    s = _current_sched
+    if c is None:
+        return REAL_SLEEP(seconds)
+    t_us = c.now_us + max(0, int(seconds * 1e6))
+    if s is not None:
+        if s.me() is None and s.inline is None:
+            return REAL_SLEEP(seconds)
+        return s.sleep_point(t_us)
+    c.advance_to(t_us)
+
+
 def install_clock_seam():
-    """Replace time.time_ns / time.time on the library object.  With no simulated clock active
-    they pass through to the real functions (so the harness itself keeps working)."""
+    """Replace time.time_ns / time.time / time.monotonic(_ns) / time.sleep on the library object.  With no simulated
+    clock active they pass through to the real functions (so the harness itself keeps working)."""
     _time.time_ns = _sim_time_ns
     _time.time = _sim_time
+    _time.monotonic = _sim_monotonic
+    _time.monotonic_ns = _sim_monotonic_ns
+    _time.sleep = _sim_sleep
 
 
 def set_clock(clock):
@@ -287,6 +324,14 @@ class Sched:
             self.main_sem.release()
 
     def run(self):
+        global _current_sched
+        _current_sched = self
+        try:
+            self._run()
+        finally:
+            _current_sched = None
+
+    def _run(self):
         for a in self.actors.values():
             a.state = "live"
             a.thread = threading.Thread(target=self._actor_main, args=(a,), name="actor-%d" % a.idx)
@@ -339,9 +384,13 @@ class Sched:
         self.actors = {0: a}
         self.inline = a
         self._tls.actor = a
+        global _current_sched
+        prev_sched = _current_sched
+        _current_sched = self
         try:
             return fn(a)
         finally:
+            _current_sched = prev_sched
             self._tls.actor = None
             self.inline = None
             if a.state != "dead":
@@ -379,6 +428,35 @@ class Sched:
             self.fired["stall"] += 1
             cost = dur
         self._park(a, self.clock.now_us + cost)
+
+    def sleep_point(self, t_us):
+        """time.sleep() of the code under test: a yield point whose cost is the requested duration."""
+        a = self.me()
+        if a is None:
+            self.clock.advance_to(t_us)
+            self._fire_due()
+            return
+        if a.state == "dead":
+            raise SimCrash()
+        if self.aborted is not None:
+            raise HarnessAbort()
+        a.steps += 1
+        self.total_steps += 1
+        if self.total_steps > self.step_cap * 5:
+            self.aborted = "step cap exceeded in sleeps"
+            raise HarnessAbort()
+        if self.crash is not None and self.crash == (a.idx, a.steps):
+            a.state = "dead"
+            self.fired["crash"] += 1
+            self.log.add(self.clock.now_us, a.idx, "crash", "sleep")
+            for b in self.actors.values():
+                if b is not a and b.proc == a.proc and b.state == "live":
+                    b.state = "dead"
+                    self.urgent.append(b.idx)
+            raise SimCrash()
+        self.log.add(self.clock.now_us, a.idx, "sleep", str(max(0, t_us - self.clock.now_us)))
+        self.sched_sig.update(("%d|sleep;" % a.idx).encode())
+        self._park(a, t_us)
 
     def sleep_until(self, t_us, kind="sleep", detail=""):
         """Block the calling actor until simulated time t_us (busy-handler waits)."""
